@@ -102,6 +102,11 @@ void glue_prog(int p, int in_base, int allow_fail, uint8_t opt) {
 }
 
 #ifdef VF_CBMC
+#ifdef GLUE_MANAGED
+extern unsigned os_probe_q; extern unsigned char os_probe_ref; extern int os_probe_ref_set;
+int os_code_write(unsigned char *dest, unsigned len, long *off, int *slot);
+void os_probe_store(int slot, unsigned char v);
+#endif
 /* replaces the static str_to_instr of parser.c (goto-instrument --replace-calls) */
 int stub_str_to_instr(struct instr *ins, const char s[], int *read_len) {
   struct aprog *P = &G_PROG[g_cur_prog];
@@ -123,17 +128,17 @@ unsigned int stub_assemble_asm(struct instr *ins, uint8_t *dest) {
   unsigned len = P->l[i].len;
   g_asm_calls++;
 #ifdef GLUE_MANAGED
-  /* library-managed buffer: the permitted range is the mapping the OS model
-   * currently has (a stale address after a moving mremap is out of range) */
-  extern unsigned char *os_code_base(void);
-  extern unsigned os_anon_len;
+  /* library-managed buffer: the permitted range is a live mapping of the OS
+   * model (a stale address after a moving mremap is not); the model also keeps
+   * the contents of one nondeterministically chosen byte of it */
   if (g_base == NULL) {
-    long offm = (long)(dest - os_code_base());
-    int okm = offm >= 0 && offm + (long)len <= (long)os_anon_len;
+    long offm = -1; int slot = 0;
+    int okm = os_code_write(dest, len, &offm, &slot);
     CHECK(okm, "an instruction is written only inside the current managed mapping (never through a stale address)");
     if (!okm) return len;
     g_pos[g_cur_prog][i] = offm;
-    dest[0] = P->l[i].sig[0];
+    if (os_probe_q >= (unsigned long)offm && os_probe_q < (unsigned long)offm + len)
+      os_probe_store(slot, P->l[i].sig[os_probe_q - (unsigned long)offm]);
     return len;
   }
 #endif
@@ -141,6 +146,13 @@ unsigned int stub_assemble_asm(struct instr *ins, uint8_t *dest) {
   int ok = __CPROVER_same_object(dest, g_base) && off >= g_lo && off + (long)len <= g_hi;
   CHECK(ok, "an instruction is written only inside the attached buffer, at or after the call's start offset");
   if (!ok) { g_range_violations++; return len; }
+#ifdef GLUE_MANAGED
+  /* the reference instance: remember the byte at the OS model's probe offset */
+  if (os_probe_q >= (unsigned long)off && os_probe_q < (unsigned long)off + len) {
+    os_probe_ref = P->l[i].sig[os_probe_q - (unsigned long)off];
+    os_probe_ref_set = 1;
+  }
+#endif
   if (g_need_reserve)
     CHECK(off + 20 <= g_buflen, "an instruction is written only while the documented 20 reserve bytes remain");
   g_pos[g_cur_prog][i] = off;
